@@ -109,7 +109,8 @@ def check(ctx):
                 T = full_basis_tensors(b, order, N)
                 cap = 12 if ctx.quick else 80
                 worst, arg = 0.0, None
-                for v in T[:cap]:
+                comb = np.tensordot(rng.normal(size=nb), T, axes=(0, 0))          # every column takes part
+                for v in list(T[:cap]) + [comb]:
                     s = max(np.abs(v).max(), 1e-300)
                     for gi in g_idx:
                         d = float(np.abs(apply_op(v, order, perms_all[gi], Rc[gi]) - v).max() / s)
